@@ -23,6 +23,8 @@ from sa.pyfront import Program
 from sa.symex import Interp, flat_guards
 
 RULES = {
+    "R-C06-j": "an augmented assignment through an integer-array index (A[rows] -= 1) acts once per DISTINCT row (NumPy buffers the read-modify-write), so the index array must be duplicate-free: one entry's row ids are, a concatenation of several entries' row ids is not",
+    "R-C06-i": "the dtype ladder that collapsed relies on (fit_dtype) contains [min, max] in every leaf - imported from the C19 analysis",
     "R-C06-a": "no method writes storage reachable from a non-receiver operand; non-mutating methods do not write the receiver either",
     "R-C06-b": "with the copy flag on, every array stored in the result is freshly allocated (shares no storage with the source)",
     "R-C06-c": "fit_dtype receives a minimum whenever its argument is a category value that may be negative",
@@ -469,6 +471,96 @@ def rule_h(prog, rep):
               witness={"inputs": "reindexed({0: 9}) on an index with common 0: the implicit rows must read 9"})
 
 
+def _element_sources(idx, I):
+    """idx = an element of a list (possibly fetched from a local dict with .get): the terms appended to such lists."""
+    if idx.op != "iter":
+        return []
+    out = []
+
+    def from_list(l):
+        if l.op == "alloc" and l in I.heap:
+            out.extend(I.heap[l].get("elts", []))
+            return True
+        return False
+
+    for a in tm.alts(idx.args[0]):
+        if from_list(a):
+            continue
+        if a.op == "call" and tm.callee_name(a) == ".get":
+            d = a.args[0].args[0]
+            for dd in tm.alts(d):
+                if dd.op == "alloc" and dd in I.heap:
+                    for item in I.heap[dd].get("items", []):
+                        v = item[1]
+                        for vv in tm.alts(v):
+                            if not from_list(vv):
+                                return []
+                else:
+                    return []
+            for dflt in a.args[1][1:]:
+                for x in tm.alts(dflt):
+                    if not from_list(x):
+                        return []
+            continue
+        return []
+    return out
+
+
+def rule_j(prog, rep):
+    from sa.rowids import Analyzer
+    ii = prog.cls("iindexes", "iindex")
+    n = 0
+    roots = [f for name, f in ii.methods.items()] + [prog.func("iindexes", "column_stack")]
+    for fi in roots:
+        if getattr(fi, "node", None) is None:
+            continue
+        I = Interp(prog, hints.param_types_for("iindexes"), hints.FIELD_TYPES, inline=False)
+        try:
+            I.run(fi)
+        except Exception:
+            continue
+        an = None
+        for e in I.events:
+            if e.kind != "store_sub" or e.stack or e["aug"] is None:
+                continue
+            base = e["base"]
+            if not any(b.op == "call" and (tm.callee_name(b) or "").startswith("numpy.") for b in tm.alts(base)):
+                continue  # dict / list counters: scalar keys
+            idx = e["index"]
+            if idx.op in ("const", "enumidx") or (idx.op == "sub" and idx.args[0].op == "dkey"):
+                continue
+            n += 1
+            an = an or Analyzer(I, fi)
+            where = "%s@%d" % (fi.fq, e.line)
+            cons = "%s: %s[%s] %s= ..." % (fi.qualname, tm.show(base)[:25], tm.show(idx)[:40], e["aug"])
+            joined = [x for x in tm.walk(idx) if x.op == "call" and (tm.callee_name(x) or "") in ("numpy.concatenate", "numpy.append", "numpy.hstack", "numpy.r_")]
+            f = None
+            try:
+                f = an.facts(idx, list(e.guards))
+            except Exception:
+                f = None
+            if (f is None or not f.su) and not joined:
+                # an element of a list kept in a local dict: every array ever put into such a list
+                srcs = _element_sources(idx, I)
+                if srcs:
+                    fs = []
+                    for x in srcs:
+                        try:
+                            fs.append(an.facts(x, list(e.guards)))
+                        except Exception:
+                            fs.append(None)
+                    if all(g is not None and g.su for g in fs):
+                        f = fs[0]
+            if joined:
+                rep.violated("R-C06-j", where, cons, "the index array is a concatenation of several entries' row ids: a row present in two of them is updated once, not twice",
+                             witness={"inputs": "2-D index with common 0, collapsed([1, 0, -1]), row [-1, -1]: the count of columns below the common value is decremented once instead of twice and the row gets 0 instead of -1"})
+            elif f is not None and f.su:
+                rep.proved("R-C06-j", where, cons, "index is one entry's row ids (strictly increasing, hence duplicate-free): %s" % "; ".join(f.why[:1]))
+            else:
+                rep.undecided("R-C06-j", where, cons, "cannot show that the index array is duplicate-free")
+    rep.floor("R-C06-j", 2, n)
+
+
 def main(tier):
     rep = core.Report("C06", level="other", rules=RULES, tier=tier,
                       declined="every sequence of index operations matches the NumPy model on the dense array (histories x values): not decidable by static analysis in reach; e.g. the collapsed() result for a precedence list that omits a present value is a value-level defect this check cannot see")
@@ -482,6 +574,13 @@ def main(tier):
     rule_f(prog, rep)
     rule_g(prog, rep)
     rule_h(prog, rep)
+    rule_j(prog, rep)
+    import c19
+    sub = core.Report("C19", level="proof", rules=c19.RULES, tier=tier)
+    c19.analyse(prog, sub, False)
+    for o in sub.obls:
+        if o.rule in ("R-C19-contain", "R-C19-coverage", "R-C19-sign", "R-C19-tree"):
+            rep.add("R-C06-i", o.where, "[%s] %s" % (o.rule, o.construct), o.status, o.detail, True, o.witness)
     return rep.finish()
 
 
